@@ -121,6 +121,22 @@ var table = []fact{
 	{"C12", "tagTokenFormat", "TokenForTag: the Sprintf format of a `#` tag's token — Model/Mutable.lean `tokenForTag` (`r ++ '=' :: v`)",
 		inFuncStr("", "TokenForTag", "fmt.Sprintf(HOLE, ANY1, ANY2)")},
 
+	// ---- C17 merged worlds (ingest/compact/world.go, world.go) -----------------------------------------
+	{"C17", "featureTypeEnd", "b6.FeatureTypeEnd — Model/Merged.lean `numTypes` (ids of type ≥ FeatureTypeEnd are never found)", constNat("", "FeatureTypeEnd")},
+	{"C17", "featuresByIDTypes", "FeaturesByID.features: the array length `[b6.FeatureTypeEnd][]*featureBlock` (`int(id.Type) >= len(f.features)`) — Model/Merged.lean `numTypes`",
+		structArrayLen("ingest/compact", "FeaturesByID", "features")},
+
+	// ---- C23 request evaluation (protos.go, world.go, api/vm.go) ----------------------------------------
+	{"C23", "featureTypeFromProto", "NewFeatureTypeFromProto: (pb.FeatureType number, b6.FeatureType number) per case — Model/EvalGuards.lean `featureType`",
+		switchConstConst("", "NewFeatureTypeFromProto", "t")},
+	{"C23", "featureTypeFromProtoDefault", "NewFeatureTypeFromProto: the final `return` for numbers outside the enum — Model/EvalGuards.lean `featureType` (`else \"invalid\"`)",
+		finalReturnNat("", "NewFeatureTypeFromProto")},
+	{"C23", "featureTypeNames", "FeatureType.String: (value, name) per case — the names Model/EvalGuards.lean `featureType` answers",
+		switchConstStr("", "FeatureType.String", "f", false)},
+	{"C23", "featureTypeDefaultName", "FeatureType.String: the default clause", switchDefaultStr("", "FeatureType.String", "f", false)},
+	{"C23", "opcodes", "the `Op` constants in iota order — the instruction set of Model/VM.lean", enumTable("api", "OpPushValue", "Op")},
+	{"C23", "maxArgs", "MaxArgs — Model/Interp.lean `maxArgs` (the VM model C23's driver runs)", constNat("api", "MaxArgs")},
+
 	// ---- C18 change export (world.go) -------------------------------------------------------------------
 	{"C18", "featureTypeNames", "FeatureType.String: (value, name) per case — Model/ChangeExport.lean `typeNames`",
 		switchConstStr("", "FeatureType.String", "f", false)},
@@ -160,6 +176,13 @@ var table = []fact{
 	{"C31", "nsUKONSBoundaries", "b6.NamespaceUKONSBoundaries — Model/FeatureID.lean `nsUKONS`", constAs("", "NamespaceUKONSBoundaries", "bytes")},
 	{"C31", "nsGBCodePoint", "b6.NamespaceGBCodePoint — Model/FeatureID.lean `nsGBCodePoint`", constAs("", "NamespaceGBCodePoint", "bytes")},
 	{"C31", "nsGBUPRN", "b6.NamespaceGBUPRN — Model/FeatureID.lean `nsGBUPRN`", constAs("", "NamespaceGBUPRN", "bytes")},
+
+	{"C31", "featureTypeFromProto", "NewFeatureTypeFromProto: (pb.FeatureType number, b6.FeatureType number) per case — Model/FeatureID.lean `ftypeFromProto` (also used by C19's WireExpr)",
+		switchConstConst("", "NewFeatureTypeFromProto", "t")},
+	{"C31", "featureTypeFromProtoDefault", "NewFeatureTypeFromProto: the final `return` for numbers outside the enum — Model/FeatureID.lean `ftypeFromProto` (`_ => some .invalid`)",
+		finalReturnNat("", "NewFeatureTypeFromProto")},
+	{"C31", "featureTypeToProto", "NewProtoFromFeatureType: (b6.FeatureType number, pb.FeatureType number) per case — Model/FeatureID.lean `FType.toProto`",
+		switchConstConst("", "NewProtoFromFeatureType", "t")},
 
 	// ---- C32 GeoJSON (geojson/geojson.go, world.go) -----------------------------------------------------
 	{"C32", "unmarshalTypeCases", "geojson.Unmarshal: the case lists of `switch t.Type` — Model/GeoJSON.lean `topLevelGeometryTypes` (third clause)",
@@ -218,6 +241,76 @@ func switchDefaultStr(dir, fnKey, tagPattern string, asBytes bool) func(*ctx) ou
 			}
 		}
 		failf("switch %s in %s has no default clause", tagPattern, fnKey)
+		return out{}
+	}
+}
+
+// switchConstConst: `switch <tag> { case K: return V … }` in fnKey as [(value of K, value of V)], source order.
+func switchConstConst(dir, fnKey, tagPattern string) func(*ctx) out {
+	return func(c *ctx) out {
+		p := c.pkg(dir)
+		cls, f, pos := c.switchIn(p, fnKey, tagPattern)
+		var items []string
+		for _, cl := range cls {
+			if cl.cases == nil {
+				failf("%s: %s: `switch %s` has a default clause the model does not know", c.where(cl.pos), fnKey, tagPattern)
+			}
+			v := natLit(c.eval(p, f, returnedExpr(c, cl), -1), fnKey)
+			for _, k := range cl.cases {
+				items = append(items, tuple(natLit(c.eval(p, f, k, -1), fnKey), v))
+			}
+		}
+		return out{typ: "List (Nat × Nat)", val: leanList(items), at: c.where(pos)}
+	}
+}
+
+// finalReturnNat: the function body ends in `return <constant>`.
+func finalReturnNat(dir, fnKey string) func(*ctx) out {
+	return func(c *ctx) out {
+		p := c.pkg(dir)
+		fd, f := c.fn(p, fnKey)
+		n := len(fd.Body.List)
+		if n > 0 {
+			if r, ok := fd.Body.List[n-1].(*ast.ReturnStmt); ok && len(r.Results) == 1 {
+				return out{typ: "Nat", val: natLit(c.eval(p, f, r.Results[0], -1), fnKey), at: c.where(r.Pos()), src: fnKey + ": final " + c.src(r)}
+			}
+		}
+		failf("%s: %s does not end in `return <constant>`", c.where(fd.Pos()), fnKey)
+		return out{}
+	}
+}
+
+// structArrayLen: the length of the array type of field `field` of struct `typeName`.
+func structArrayLen(dir, typeName, field string) func(*ctx) out {
+	return func(c *ctx) out {
+		p := c.pkg(dir)
+		ts, ok := p.types[typeName]
+		if !ok {
+			failf("type %s not found in package %q", typeName, dir)
+		}
+		st, ok := ts.Type.(*ast.StructType)
+		if !ok {
+			failf("%s: %s is not a struct", c.where(ts.Pos()), typeName)
+		}
+		var file *ast.File
+		for _, f := range p.files {
+			if f.Pos() <= ts.Pos() && ts.Pos() < f.End() {
+				file = f
+			}
+		}
+		for _, fl := range st.Fields.List {
+			for _, nm := range fl.Names {
+				if nm.Name != field {
+					continue
+				}
+				at, ok := fl.Type.(*ast.ArrayType)
+				if !ok || at.Len == nil {
+					failf("%s: %s.%s is not an array", c.where(fl.Pos()), typeName, field)
+				}
+				return out{typ: "Nat", val: natLit(c.eval(p, file, at.Len, -1), field), at: c.where(fl.Pos()), src: c.src(fl.Type)}
+			}
+		}
+		failf("%s: struct %s has no field %s", c.where(ts.Pos()), typeName, field)
 		return out{}
 	}
 }
